@@ -173,6 +173,7 @@ pub fn mix_for(focus: &str) -> Mix {
             m.last_will = 1;
         }
         "C17" => {
+            m.sys_odd = 8;
             m.bad = 15;
             m.get = 5;
             m.set = 10;
